@@ -21,6 +21,8 @@ func main() {
 		vcCmd(os.Args[2:])
 	case "check":
 		checkCmd(os.Args[2:])
+	case "replay":
+		replayCmd(os.Args[2:])
 	default:
 		fmt.Fprintln(os.Stderr, "unknown command")
 		os.Exit(2)
